@@ -3,7 +3,7 @@
 input (what `replay` accepts):
   {"pair": {"m1": METHOD, "m2": METHOD, "pred": PRED, "init": {name: number | [numbers]}, "t0": x, "dt": x,
             "steps": n},
-   "clause": "<clause name>" (optional)}
+   "clause": "<clause name>", "name": variable concerned, "phase": phase concerned   (all three optional filters)}
   METHOD = {"initial": phase, "phases": {phase: {"next": phase, "stmts": [STMT...]}}}
   STMT = {"id", "deps": [ids], "cond": E|null} +
          {"k": "assign", "lhs": name, "sub": E|null, "rhs": E, "loops": [[ident, E, E]]}
@@ -673,6 +673,8 @@ def check(inp, want_run=True):
         fails = [f for f in fails if f[0] == inp["clause"]]
     if inp.get("name"):
         fails = [f for f in fails if item_name(f[2]) == inp["name"]]
+    if inp.get("phase"):
+        fails = [f for f in fails if f[2].get("phase") in (None, inp["phase"])]
     return fails, info
 
 
@@ -713,7 +715,7 @@ def _renames_every_declared_clash(pr, aux):
 
 
 def _run_needs(inp, which):
-    fails, _ = check(dict(inp, name=None))
+    fails, _ = check(dict(inp, name=None, phase=None))
     return any(c == "same-results-as-alone" and any(which in m for m in d.get("minimal_repairs", []))
                for c, _, d in fails)
 
@@ -768,9 +770,10 @@ def fp_invisible_name(inp):
     """a temporary shared by both halves is in no declared read/write set of one of the methods (it occurs only
     as a left-hand subscript / loop bound / loop identifier there: the D8 omission), so no clash was seen"""
     if inp.get("clause") == "same-results-as-alone":
-        struct = [f for f in check(dict(inp, clause=None, name=None), False)[0]
+        struct = [f for f in check(dict(inp, clause=None, name=None, phase=None), False)[0]
                   if f[0] in ("temporaries-disjoint", "clash-renamed")]
-        return any(fp_invisible_name({"pair": inp["pair"], "clause": c, "name": item_name(d)}) for c, _, d in struct) \
+        return any(fp_invisible_name({"pair": inp["pair"], "clause": c, "name": item_name(d), "phase": d.get("phase")})
+                   for c, _, d in struct) \
             and _run_needs(inp, "INV")
     if inp.get("clause") not in ("temporaries-disjoint", "clash-renamed"):
         return False
@@ -1016,7 +1019,7 @@ def bounded(payload):
             parts["pairs_all_clauses_hold"] += 1
         seen_items = set()
         for clause, detail, data in fails:
-            item = (clause, item_name(data))
+            item = (clause, item_name(data), data.get("phase"))
             if item in seen_items:
                 continue
             seen_items.add(item)
@@ -1024,6 +1027,8 @@ def bounded(payload):
             inp = {"pair": pr, "clause": clause}
             if item[1]:
                 inp["name"] = item[1]
+            if item[2]:
+                inp["phase"] = item[2]
             matched = [n for n, f in sorted(FINGERPRINTS.items()) if _safe(f, inp)]
             for m in matched:
                 parts["fingerprint_" + m] += 1
